@@ -162,10 +162,11 @@ def codeForString (value : Str) : Out Int :=
       | [c] => .ok c.toNat
       | _ =>
         match unicodeEscape (2 * body.length + 2) body with
+        | .error .unicodeDecode => .error .iface       -- malformed escape sequence: refused
         | .error e => .error e
         | .ok [c] => .ok c.toNat
         | .ok _ => .error .iface
-    else .error .assertion
+    else .error .iface                                  -- string prefix: refused
   | [] => .error .assertion
 
 def codeForNumber (value : Str) : Out Int :=
@@ -316,6 +317,12 @@ def createRangeFromLength (len : Range) : Out Range :=
     if its.any (fun i => (match i.lo with | some l => l < 0 | none => false) ||
                          (match i.hi with | some u => u < 1 | none => false)) then
       .error (.data .range)
-    else Range.parse (rangeTextFromLength its)
+    else
+      -- `"9" * n`: beyond `sys.maxsize` CPython raises OverflowError; between "large" and that a MemoryError
+      -- (or minutes of work), which the model does not follow
+      let big (o : Option Int) (limit : Int) : Bool := match o with | some v => v > limit | none => false
+      if its.any (fun i => big i.lo 9223372036854775808 || big i.hi 9223372036854775808) then .error .overflow
+      else if its.any (fun i => big i.lo 10000 || big i.hi 10000) then .error .unsupported
+      else Range.parse (rangeTextFromLength its)
 
 end Cutplace
